@@ -724,7 +724,7 @@ func configs(tier string) []plan {
 			{cfg{N: 3, Byz: -1, T: 6, Restarts: 1}, 3, 30},
 			{cfg{N: 4, Byz: 1, T: 6, Restarts: 1}, 2, 7},
 			{cfg{N: 4, Byz: -1, T: 7, Restarts: 1}, 2, 6},
-			{cfg{N: 3, Byz: -1, T: 9, Restarts: 1}, 2, 5},
+			{cfg{N: 3, Byz: -1, T: 8, Restarts: 1}, 2, 5},
 		}
 	}
 	// n=3 runs to slot 8: the first reorganisation that rebuilds the finality status below an
